@@ -70,6 +70,16 @@ impl C10Checker {
         let prefs = prefs_for_reference(s);
         let fs = s.world.lock().fs.clone();
         let r = reference_outputs(s, &fs, &dir, &prefs, &src);
+        if let Some((n, e)) = r.setup_errors.iter().find(|(n, _)| n != "set_rules_dir" && n != "harness") {
+            let held = prefs.iter().find(|(pn, _)| pn == n).map(|(_, v)| v.clone()).unwrap_or_default();
+            s.violation_g(
+                "state-not-reproducible",
+                format!("the session holds a value of {} that a fresh session rejects", n),
+                "the session holds a preference value that a fresh session rejects".into(),
+                format!("get_preference({:?}) = {:?} in the session; a fresh session answers set_preference({:?},{:?}) with {}", n, held, n, held, e),
+            );
+            return;
+        }
         let mut pairs: Vec<(&str, Res, Res)> = vec![
             ("get_spoken_text", first[0].clone().unwrap(), norm(&r.speech)),
             ("get_braille", first[1].clone().unwrap(), norm(&r.braille)),
